@@ -367,7 +367,13 @@ def templates():
     always = ('tuple-median-2x2-g01', 'tuple-median-2x2x2-g01', 'tuple-cumsum-2x2-g01', 'tuple-max-2x2x2-g12',
               # labels of every kind under operations that compute new labels from the old ones
               'diff-centered-False-n1-m3-f', 'diff-centered-True-n1-m3-f', 'diff-centered-False-n1-m3-i', 'diff-forward-False-n1-m3-f')
+    added = set()
+    for m in cat.MODULES:
+        for t in importlib.import_module('props.' + m).templates():
+            if t['name'] in always and (m, t['name']) not in qn:
+                add('cat-%s-%s' % (m, t['name']), 'catalogue', 'quick', cost=t.get('cost', 1.0) * 1.3, cmod=m, cfn=t['fn'], cparams=t['params'])
+                added.add((m, t['name']))
     for c in cat.select(max_per_fn=40, max_cost=8.0):
-        if (c['mod'], c['name']) not in qn:
+        if (c['mod'], c['name']) not in qn and (c['mod'], c['name']) not in added:
             add('cat-%s-%s' % (c['mod'], c['name']), 'catalogue', 'quick' if c['name'] in always else 'thorough', cost=c['cost'] * 1.3, cmod=c['mod'], cfn=c['fn'], cparams=c['params'])
     return ts
